@@ -5,11 +5,12 @@ import ast
 
 from .. import astutil as A
 from ..core import AnalysisError, Collector
-from .common import FnCtx, fnctx, is_method_call, self_attr_stores
-from . import c05
+from .. import sym as S
+from .common import FnCtx, fnctx, sctx, is_method_call, self_attr_stores
+from . import c04, c05
 
 PROP = "C19"
-FLOORS = {"C19.R1": 12, "C19.R2": 9, "C19.R3": 5, "C19.R4": 2, "C19.R5": 2, "C19.R6": 5, "C19.R7": 20}
+FLOORS = {"C19.R1": 12, "C19.R2": 9, "C19.R3": 5, "C19.R4": 2, "C19.R5": 2, "C19.R6": 5, "C19.R7": 20, "C19.R8": 100}
 META = {
     "explanation": "Both evaluators are the same MadxEval class; only the three containers differ. The grammar constant is read from the "
                    "AST and parsed with lark (no code of /repo runs): every rule alias has a callback in MadxEval (also after the "
@@ -76,16 +77,19 @@ def check(col: Collector):
                 f"the grammar alias `{al}` has a callback in MadxEval (lark would otherwise return a raw Tree to the caller)",
                 str(cbs.get(al, "missing"))[:80])
     # default mode leaves the grammar unchanged; attr mode replaces getitem -> getattr
+    isx = sctx(repo, "MadxEval", "__init__")
     init = repo.method("MadxEval", "__init__")
-    repl = [x for x in A.calls(init) if isinstance(x.func, ast.Attribute) and x.func.attr == "replace"]
-    ok = len(repl) == 1 and [A.const(a) for a in repl[0].args] == ["getitem", "getattr"]
+    G = ("glob", "calc_grammar")
+    get_p = isx.pnamed("get") if "get" in isx.sym.params else None
+    repl = isx.calls_some(("call", ("attr", S.V("g"), "replace"), S.V("a"), S.ANY))
+    ok = len(repl) == 1 and get_p is not None
     if ok:
-        cx = FnCtx(m, c, init)
-        nid = cx.cfg.containing(repl[0])
-        gs = [g for g in cx.cfg.guards(nid)]
-        ok = len(gs) == 1 and gs[0].kind == "T" and A.src(gs[0].ast) in ("get == 'attr'", 'get == "attr"')
+        ev, mm = repl[0]
+        ok = mm["g"] == G and mm["a"] == (("const", repr("getitem")), ("const", repr("getattr"))) and \
+            isx.under(ev.nid, ("cmp", "==", get_p, ("const", repr("attr")))) and len(isx.conds(ev.nid)) == 1
     col.add("C19.R5", "MadxEval.__init__#attr-mode-replacement", ok, m.loc(init),
-            "only in get='attr' mode the alias getitem is replaced by getattr (and nothing else is rewritten)", "")
+            "only in get='attr' mode the alias getitem is replaced by getattr (and nothing else is rewritten)",
+            S.show(repl[0][0].term) if repl else "no replacement")
     attr_text = text.replace("getitem", "getattr")
     try:
         p2 = lark.Lark(attr_text, parser="lalr")
@@ -95,12 +99,43 @@ def check(col: Collector):
         ok2 = False
     col.add("C19.R5", "MadxEval#attr-mode-aliases-have-callbacks", ok2, m.rel,
             "after the replacement every alias still has a callback and exactly the element access production changed", "")
-    # Lark(...) built with parser='lalr', transformer=self
-    lk = [x for x in A.calls(init) if A.call_name(x) == "Lark"]
-    okl = len(lk) == 1 and any(k.arg == "transformer" and A.dotted(k.value) == "self" for k in lk[0].keywords) and \
-        any(k.arg == "parser" and A.const(k.value) == "lalr" for k in lk[0].keywords)
+    # Lark(...) built with parser='lalr', transformer=self; `eval` is that parser's parse, statelessly
+    lk = isx.calls_some(("call", ("glob", "Lark"), S.V("a"), S.V("k")))
+    okl = len(lk) == 1
+    if okl:
+        kws = dict(lk[0][1]["k"])
+        g0 = lk[0][1]["a"][0] if lk[0][1]["a"] else None
+        okl = kws.get("transformer") == S.SELF and kws.get("parser") == ("const", repr("lalr")) and g0 is not None and \
+            all(x == G or S.is_call_of(x, meth="replace") for x in S.alts(g0))
     col.add("C19.R4", "MadxEval.__init__#lalr-with-inline-transformer", okl, m.loc(init),
-            "the evaluator is the LALR parser with MadxEval itself as inline transformer", "")
+            "the evaluator is the LALR parser of calc_grammar with MadxEval itself as inline transformer", "")
+    parse_of = lambda t: t[:1] == ("attr",) and t[2] == "parse" and S.is_call_of(t[1], ("glob", "Lark"))   # noqa: E731
+    st = {}
+    for ev in isx.of_kind("store"):
+        for t in S.alts(ev.target):
+            if S.is_attr(t, S.SELF):
+                st.setdefault(t[2], []).append(ev.value)
+    if "eval" in c.methods:
+        esx = sctx(repo, "MadxEval", "eval")
+        arg = esx.P(0)
+        rets = esx.of_kind("return")
+        fresh = bool(rets)
+        facts = ""
+        for r in rets:
+            for a_ in S.alts(r.value):
+                f = a_[1] if S.is_call_of(a_) else None
+                direct = f is not None and f[:1] == ("attr",) and f[1] == S.SELF and len(st.get(f[2], [])) == 1 and parse_of(st[f[2]][0]) and a_[2] == (arg,)
+                if not direct:
+                    fresh = False
+                    facts = f"a path returns {S.show(a_)}"
+        col.add("C19.R4", "MadxEval.eval#parses-afresh", fresh, esx.loc(esx.fn),
+                "evaluating a string parses and evaluates it on every call (the immediate evaluator must see the current data: "
+                "no result is remembered per string)", facts)
+    else:
+        ok_e = len(st.get("eval", [])) == 1 and parse_of(st["eval"][0])
+        col.add("C19.R4", "MadxEval.eval#parses-afresh", ok_e, m.loc(init),
+                "`eval` is the parser's own parse function: every call parses and evaluates the string afresh (no remembered results)",
+                S.show(st["eval"][0]) if st.get("eval") else "no self.eval")
     # operator agreement
     def tokens_of(r):
         return [term_pat.get(s.name) for s in r.expansion if s.is_term and term_pat.get(s.name) is not None and s.name not in ("NAME", "NUMBER")]
@@ -133,85 +168,96 @@ def check(col: Collector):
     col.add("C19.R2", "MadxEval.number#float", got is not None and got[0] == "const" and got[1] == "float", m.loc(c.node),
             "NUMBER tokens are converted with float", str(got))
     # callbacks
-    def ret_of(name):
-        fn = cbs.get(name, (None, None))[1]
-        if not isinstance(fn, ast.FunctionDef):
-            return None, None
-        rets = [n.value for n in A.walk(fn) if isinstance(n, ast.Return)]
-        return fn, rets
-    fn, rets = ret_of("var")
-    ok = fn is not None and len(rets) == 1 and isinstance(rets[0], ast.Subscript) and A.dotted(rets[0].value) == "self.variables" and \
-        A.src(rets[0].slice) in (f"{A.params(fn)[1]}.value", A.params(fn)[1])
-    col.add("C19.R6", "MadxEval.var#variables[name]", ok, m.loc(fn) if fn else m.rel, "a name evaluates to variables[name]", "")
-    fn, rets = ret_of("getitem")
-    ok = fn is not None and len(rets) == 1 and isinstance(rets[0], ast.Subscript) and isinstance(rets[0].value, ast.Subscript) and \
-        A.dotted(rets[0].value.value) == "self.elements"
+    def cb(name):
+        if name not in c.methods:
+            return None
+        return sctx(repo, "MadxEval", name)
+
+    def tok(p):
+        return (p, ("attr", p, "value"), S.fcall("str", p))
+    sx = cb("var")
+    ok = sx is not None
     if ok:
-        p = A.params(fn)
-        ok = A.src(rets[0].value.slice).split(".")[0] == p[1] and A.src(rets[0].slice).split(".")[0] == p[2]
-    col.add("C19.R6", "MadxEval.getitem#elements[name][key]", ok, m.loc(fn) if fn else m.rel, "`name->key` evaluates to elements[name][key]", "")
-    fn, rets = ret_of("getattr")
-    ok = fn is not None and len(rets) == 1 and isinstance(rets[0], ast.Call) and A.call_name(rets[0]) == "getattr" and len(rets[0].args) == 2 and \
-        isinstance(rets[0].args[0], ast.Subscript) and A.dotted(rets[0].args[0].value) == "self.elements"
+        rets = [r for r in sx.of_kind("return")]
+        ok = bool(rets) and all(r.value[:1] == ("sub",) and r.value[1] == S.sattr("variables") and r.value[2] in tok(sx.P(0)) for r in rets)
+    col.add("C19.R6", "MadxEval.var#variables[name]", ok, sx.loc(sx.fn) if sx else m.rel, "a name evaluates to variables[name]", "")
+    sx = cb("getitem")
+    ok = sx is not None
     if ok:
-        p = A.params(fn)
-        ok = A.src(rets[0].args[0].slice).split(".")[0] == p[1] and A.src(rets[0].args[1]).split(".")[0] == p[2]
-    col.add("C19.R6", "MadxEval.getattr#getattr(elements[name],key)", ok, m.loc(fn) if fn else m.rel,
+        rets = sx.of_kind("return")
+        ok = bool(rets) and all(r.value[:1] == ("sub",) and r.value[1][:1] == ("sub",) and r.value[1][1] == S.sattr("elements")
+                                and r.value[1][2] in tok(sx.P(0)) and r.value[2] in tok(sx.P(1)) for r in rets)
+    col.add("C19.R6", "MadxEval.getitem#elements[name][key]", ok, sx.loc(sx.fn) if sx else m.rel, "`name->key` evaluates to elements[name][key]", "")
+    sx = cb("getattr")
+    ok = sx is not None
+    if ok:
+        rets = sx.of_kind("return")
+        ok = bool(rets) and all(S.is_call_of(r.value, ("glob", "getattr")) and len(r.value[2]) == 2 and r.value[2][0][:1] == ("sub",)
+                                and r.value[2][0][1] == S.sattr("elements") and r.value[2][0][2] in tok(sx.P(0)) and r.value[2][1] in tok(sx.P(1))
+                                for r in rets)
+    col.add("C19.R6", "MadxEval.getattr#getattr(elements[name],key)", ok, sx.loc(sx.fn) if sx else m.rel,
             "`name->key` in attr mode evaluates to getattr(elements[name], key)", "")
-    fn, rets = ret_of("call")
-    ok = False
-    if fn is not None and len(rets) == 1 and isinstance(rets[0], ast.Call):
-        cx = FnCtx(m, c, fn)
-        f = rets[0].func
-        if isinstance(f, ast.Name):
-            vals = [n.value for n in A.walk(fn) if isinstance(n, ast.Assign) and A.target_names(n.targets[0]) == [f.id]]
-            f = vals[0] if len(vals) == 1 else f
-        ok = isinstance(f, ast.Call) and A.call_name(f) == "getattr" and A.dotted(f.args[0]) == "self.functions" and \
-            A.dotted(f.args[1]) == A.params(fn)[1] and len(rets[0].args) == 1 and isinstance(rets[0].args[0], ast.Starred) and \
-            fn.args.vararg is not None and A.dotted(rets[0].args[0].value) == fn.args.vararg.arg
-    col.add("C19.R6", "MadxEval.call#getattr(functions,name)(*args)", ok, m.loc(fn) if fn else m.rel,
+    sx = cb("call")
+    ok = sx is not None
+    if ok:
+        ps = sorted((t for t in sx.sym.params.values() if t[:1] == ("param",)), key=lambda t: t[1])
+        rets = sx.of_kind("return")
+        ok = len(ps) == 2 and ps[1][2].startswith("*") and bool(rets) and all(
+            S.is_call_of(r.value) and S.is_call_of(r.value[1], ("glob", "getattr")) and r.value[1][2][:2] == (S.sattr("functions"), ps[0])[:2]
+            and r.value[1][2][1] in tok(ps[0]) and r.value[2] == (("uop", "*", ps[1]),) and not r.value[3] for r in rets)
+    col.add("C19.R6", "MadxEval.call#getattr(functions,name)(*args)", ok, sx.loc(sx.fn) if sx else m.rel,
             "a call evaluates to getattr(functions, name)(*args) with all arguments in order", "")
-    init_st = {a: n for a, n in self_attr_stores(init)}
-    P = A.params(init)
-    ok = all(a in init_st and isinstance(init_st[a], ast.Assign) and A.dotted(init_st[a].value) == a for a in ("variables", "functions", "elements")) \
-        and P[1:4] == ["variables", "functions", "elements"]
+    ps = sorted((t for t in isx.sym.params.values() if t[:1] == ("param",)), key=lambda t: t[1])
+    ok = len(ps) >= 3 and all(st.get(a_) == [ps[i]] for i, a_ in enumerate(("variables", "functions", "elements"))) and \
+        [p_[2] for p_ in ps[:3]] == ["variables", "functions", "elements"]
     col.add("C19.R6", "MadxEval.__init__#containers", ok, m.loc(init),
-            "the evaluator stores (variables, functions, elements) as given, in that parameter order", str(P))
+            "the evaluator stores (variables, functions, elements) as given, in that parameter order", str([p_[2] for p_ in ps]))
     # wiring in MadxEnv
-    env = repo.method("MadxEnv", "__init__")
-    st = {}
-    for a, n in self_attr_stores(env):
-        if isinstance(n, ast.Assign):
-            st[a] = n.value
+    esx = sctx(repo, "MadxEnv", "__init__")
+    fenv = {}
+    for ev in esx.of_kind("store"):
+        for t in S.alts(ev.target):
+            if S.is_attr(t, S.SELF):
+                fenv.setdefault(t, []).append(ev.value)
+    fmap = {k: v[0] for k, v in fenv.items() if len(v) == 1}
+
+    def deref(t, depth=4):
+        for _ in range(depth):
+            t2 = S.subst(t, fmap)
+            if t2 == t:
+                break
+            t = t2
+        return t
 
     def evaluator(v):
-        if isinstance(v, ast.Attribute) and v.attr == "eval" and isinstance(v.value, ast.Call) and A.call_name(v.value) == "MadxEval":
-            return v.value
+        v = deref(v) if v is not None else None
+        if v is not None and v[:1] == ("attr",) and v[2] == "eval" and S.is_call_of(v[1], ("glob", "MadxEval")):
+            return v[1]
         return None
-    ex, ev = evaluator(st.get("madexpr")), evaluator(st.get("madeval"))
-    if ex is None or ev is None:
-        col.fail("C19.R3", "MadxEnv.__init__#evaluators", m.loc(env), "madexpr/madeval are MadxEval(...).eval", "")
+    ex, ev_ = evaluator(fmap.get(S.sattr("madexpr"))), evaluator(fmap.get(S.sattr("madeval")))
+    if ex is None or ev_ is None:
+        col.fail("C19.R3", "MadxEnv.__init__#evaluators", esx.loc(esx.fn), "madexpr/madeval are MadxEval(...).eval", "")
     else:
-        same_mode = {k.arg: A.src(k.value) for k in ex.keywords} == {k.arg: A.src(k.value) for k in ev.keywords} and len(ex.args) == len(ev.args) == 3
-        col.add("C19.R3", "MadxEnv.__init__#same-evaluator-and-mode", same_mode, m.loc(env),
-                "both evaluators are MadxEval with the same element access mode", f"{A.src(ex)} / {A.src(ev)}")
+        same_mode = ex[3] == ev_[3] and len(ex[2]) == len(ev_[2]) == 3
+        col.add("C19.R3", "MadxEnv.__init__#same-evaluator-and-mode", same_mode, esx.loc(esx.fn),
+                "both evaluators are MadxEval with the same element access mode", f"{S.show(ex)[:80]} / {S.show(ev_)[:80]}")
+        mgr = deref(S.sattr("manager"))
         for i, what in enumerate(("variables", "functions", "elements")):
-            if i >= len(ex.args) or i >= len(ev.args):
+            if i >= len(ex[2]) or i >= len(ev_[2]):
                 continue
-            ra = A.self_attr(ex.args[i])
-            plain = A.src(ev.args[i])
-            refdef = st.get(ra) if ra else None
-            ok = isinstance(refdef, ast.Call) and isinstance(refdef.func, ast.Attribute) and refdef.func.attr == "ref" and \
-                A.dotted(refdef.func.value) == "self.manager" and refdef.args and A.src(refdef.args[0]) == plain
-            col.add("C19.R3", f"MadxEnv.__init__#{what}-ref-of-same-object", ok, m.loc(env),
+            mm = S.match(ex[2][i], ("call", ("attr", S.V("mg"), "ref"), S.V("a"), S.ANY))
+            ok = mm is not None and bool(mm["a"]) and mm["a"][0] == ev_[2][i] and mm["mg"] == mgr
+            col.add("C19.R3", f"MadxEnv.__init__#{what}-ref-of-same-object", ok, esx.loc(esx.fn),
                     f"madexpr's {what} is manager.ref(<the very object madeval uses as {what}>)",
-                    f"madexpr gets {A.src(ex.args[i])} = {A.src(refdef)}; madeval gets {plain}")
-        mg = st.get("manager")
-        col.add("C19.R3", "MadxEnv.__init__#own-manager", isinstance(mg, ast.Call) and A.call_name(mg) == "Manager", m.loc(env),
-                "the environment owns a fresh Manager", A.src(mg))
+                    f"madexpr gets {S.show(ex[2][i])[:80]}; madeval gets {S.show(ev_[2][i])[:60]}")
+        col.add("C19.R3", "MadxEnv.__init__#own-manager", S.is_call_of(mgr, ("glob", "Manager")), esx.loc(esx.fn),
+                "the environment owns a fresh Manager", S.show(mgr))
     # dependency reporting of the node classes built by MAD-X expressions
     sub = Collector(repo, "C19", col.tier)
     c05._readset(sub, rule="C19.R7")
     c05._accumulator(sub, rule="C19.R7")
     c05._never_none(sub, rule="C19.R7")
-    col.obs.extend(sub.obs)
+    # ... and the operand algebra itself: operator dunders build the node Python prescribes on every path
+    c04._binary(sub, rule="C19.R8")
+    c04._unary(sub, rule="C19.R8")
+    col.obs.extend(o for o in sub.obs if not o.note)
